@@ -44,9 +44,9 @@ def judge(ctx, spec, record=True):
             if prev_len:
                 ctx.nontrivial((spec['kind'], op[0], outcome if outcome in ('ok', 'Veto') else 'raised', min(prev_len, 4)))
             ctx.distinct('op_outcomes', (spec['kind'], op[0], outcome))
+            prev_len = len(seq)
         for k in (1, 2, 3):
             ctx.distinct('history_prefixes_len%d' % k, (spec['kind'], str(spec['ops'][:k])))
-            prev_len = len(seq)
         ctx.sample(dict(kind=spec['kind'], ops=spec['ops'][:12], final=log[-1][3] if log else []))
     for e in log:
         ctx.log(*e)
